@@ -3,11 +3,12 @@ import pv
 SPEC = {
     "targets": ["Properties/C14.vo", "Run/C14.vo"],
     "theorems": {"Properties.C14": ["C14_lock_mutex", "C14_inflight_bound", "C14_no_identical_inflight",
-                                    "C14_shared_slices_refuted", "C14_lock_key_determines_cache_keys", "C14_served_once", "C14_one_run_per_lifetime",
+                                    "C14_side_cond_necessary", "C14_lock_key_determines_cache_keys", "C14_no_identical_inflight_questions",
+                                    "C14_source_structure", "C14_served_once", "C14_one_run_per_lifetime",
                                     "C14_no_lost_unlock", "C14_cache_model_refines_lts", "C14_process_job_refines_lts",
                                     "C14_nonvacuous"]},
     "harness_args": lambda tier: ["C14", "--n", 600 if tier == "quick" else 6000, "--stress", 150 if tier == "quick" else 1500],
-    "search_args": lambda tier: ["C14", "--n", 1500, "--stress", 200],
+    "search_args": lambda tier: ["C14", "--n", 600, "--stress", 200],
     "harness_timeout": 1200,
     "level": "proof",
     "trusted_base": [
@@ -21,8 +22,10 @@ SPEC = {
         "queue, workers, cache with injected clock, HTTP to a scripted server) one call at a time vs the LTS action sequence "
         "lock/enqueue/take/check/(end)/reply/unlock — all through overlay export shims; the two models are related by theorems "
         "C14_cache_model_refines_lts / C14_process_job_refines_lts",
-        "key construction (lock key / cache key components) hand-modelled in Model/KeyLockKeys.v and compared on every run with the "
-        "lock keys the real client holds (same partition of the sample questions)",
+        "key construction: coq/Gen/C14.v (lock key parts and hashed cache key parts per API method, plus 'Wait is re-checked in a loop' "
+        "and 'processJob is only called by queryWorker') is regenerated from the Go AST by translator/ext_C14.go on every run (fails "
+        "closed on unknown shapes); Model/KeyLockKeys.v only interprets that table; additionally compared on every run with the lock "
+        "keys the real client holds (same partition of the sample questions and the same strings)",
         "key table (observed every run): each question asked alone, lock keys snapshotted from inside the server handler; identical "
         "wire requests must be guarded by the same lock key (the side condition of the theorems)",
         "concurrency oracle (testing, not proof): stress runs of the real client + worker pool + net/http against a fake server with a "
@@ -30,8 +33,9 @@ SPEC = {
         "harness: schedulers, recorders, fake server, term printers",
     ],
     "assumptions": [
-        "side_cond: callers taking different lock keys ask disjoint sets of cache keys (proved false at model level and on the real "
-        "client for range slices with different lookbacks: known finding C14-range-shared-slices)",
+        "side_cond (callers taking different lock keys ask disjoint sets of cache keys) is PROVED for every set of callers asking questions "
+        "of the generated key table (C14_no_identical_inflight_questions), range slices included; remaining premises: a caller's own "
+        "requests (slices) are pairwise different, and cache keys / lock keys are numbered injectively",
         "xxhash cache keys are treated as injective (no collisions between different requests)",
         "in flight is measured at the client (RoundTrip start .. body closed): the server may still work on a request the client cancelled",
     ],
@@ -94,8 +98,12 @@ MANIFEST = {
             "has at most one successful request and every caller observes that value; a call ends only through its unlock and no "
             "step can get stuck before it (error paths included). PARTIAL: the runtime semantics of sync.Cond/channels/scheduler are "
             "assumed to match the LTS actions; they are exercised, not proved, by stress runs of the real client (and -race in the "
-            "thorough tier when available). The side condition is refuted for range slices (model witness + reproduced on the real "
-            "client): known finding C14-range-shared-slices. Tie: sequential traces of queryCache (injected clock), partitionLocker "
+            "thorough tier when available). The side condition 'the lock key determines the cache keys' is PROVED from the key "
+            "construction table that a translator extension regenerates from the Go AST on every run (lock key parts / hashed cache "
+            "key parts of Query, RangeQuery, Config, Flags, Metadata): a decidable criterion, proved sound for all values of the "
+            "variables, holds of the current table (range slices included, fix fb76e32) and fails of the pre-fix table with the "
+            "lookback in the range lock key; hence no_identical_inflight holds for all callers asking such questions without a side "
+            "condition on keys. Tie: sequential traces of queryCache (injected clock), partitionLocker "
             "(deterministic scheduler), processJob (scripted queriers) and of the composed pipeline compared with the models on every "
             "run; the sequential cache/processJob model is proved to refine the LTS cache actions.",
     "note": "Coq 8.16.1 kernel+VM, no axioms; LTS hand-written, runtime remainder (sync.Cond, channels, scheduler, memory model) "
